@@ -10,6 +10,9 @@ reference split must contribute exactly one equation or verbatim block.
 import itertools
 import re
 import sys
+import warnings
+
+import numpy as np
 
 import fsic
 import fsic.parser
@@ -21,8 +24,8 @@ ID = 'C13'
 LEVEL = 'exploration'
 TECHNIQUE = 'exhaustive enumeration of all strings / token sequences up to a length bound and all 1-2 step mutations of seed scripts; per-input alarm, execution canary, build+instantiate, statement accounting'
 RULE = ('(a) all strings of length <= 4 (quick) / <= 5 (thorough) over 25 characters; (b) all sequences of <= 3 (quick) / <= 4 (thorough) tokens over 32 tokens; '
-        '(c) all single mutations (quick) / single and double mutations (thorough) of 18 seed scripts (token deletion, duplication, adjacent swap, bracket insertion); '
-        '(d) all sequences of <= 6 (quick) / <= 7 (thorough) tokens over the 8-token alphabet {X, exp, =, (, ), 1, space, [-1]} (names in several roles). '
+        '(c) all single mutations (quick) / single and double mutations (thorough) of 23 seed scripts (token deletion, duplication, adjacent swap, bracket insertion); '
+        '(d) all sequences of <= 6 (quick) / <= 7 (thorough) tokens over the 9-token alphabet {X, exp, =, (, ), 1, space, [-1], status} (names in several roles). '
         'non-trivial = input that is not rejected by the very first equation regex test, i.e. reaches term parsing, or is accepted; distinct by input text')
 ASSUMPTIONS = [
     'reference statement split: physical lines joined while parentheses or a code fence are open; blank and comment-only lines dropped',
@@ -50,9 +53,14 @@ SEEDS = [
     'f = f(X)',
     'max = max(A, B[-1])',
     '`self._Y[t] = self._Y[t] + 1`\nY = X\n`self._Y[t] = self._Y[t] + 1`',
+    '(\n```\nself._Y[t] = 1.0\n```\n)',
+    'Y = (X +\n```\nZ\n```\n)',
+    'status = X\nY = iterations[-1]',
+    'a_very_long_variable_name_for_disposable_income = another_quite_long_variable_name_for_spending[-1] + {a_parameter_with_a_long_descriptive_name}',
+    'Y = ' + ' + '.join('quite_a_long_name_for_variable_number_%d_in_this_equation' % i for i in range(6)),
     '```\nself._Z[t] = 0.0\n```\n```\nself._Z[t] = 0.0\n```\nZ = Z + X',
 ]
-SMALL_TOKENS = ['X', 'exp', '=', '(', ')', '1', ' ', '[-1]']
+SMALL_TOKENS = ['X', 'exp', '=', '(', ')', '1', ' ', '[-1]', 'status']
 
 OWN = (ParserError, SymbolError, IndentationError)
 
@@ -127,6 +135,8 @@ def judge(s, sink):
     del _EXEC_HITS[:]
     printed = sink.n
     g_before = set(vars(fsic.parser))
+    w_before = list(warnings.filters)
+    e_before = np.geterr()
     fsic.parser.__dict__['self'] = Tripwire()
     _PHASE[0] = ('<module>',)
     label = None
@@ -158,6 +168,12 @@ def judge(s, sink):
                   'parse_model executed code of the script'))
     if sink.n != printed:
         v.append(('side-effect:stdout', 'nothing printed', sink.n - printed, 'parsing wrote to stdout'))
+    if list(warnings.filters) != w_before:
+        v.append(('side-effect:warnings-filters', 'process-wide warning filters unchanged', [str(f)[:60] for f in warnings.filters[:2]], 'parsing changed the process-wide warnings filters'))
+        warnings.filters[:] = w_before
+    if np.geterr() != e_before:
+        v.append(('side-effect:numpy-errstate', e_before, np.geterr(), 'parsing changed the NumPy error state'))
+        np.seterr(**e_before)
     if set(vars(fsic.parser)) - g_before:
         v.append(('side-effect:globals', [], sorted(set(vars(fsic.parser)) - g_before), 'parsing left names in the parser module'))
     if symbols is None:
@@ -211,7 +227,9 @@ def judge(s, sink):
             continue
         eqs = equations_of(r)
         if len(eqs) != 1:
-            v.append(('statement-dropped' if not eqs else 'statement-doubled', 'exactly one equation or verbatim block', {'statement': st, 'contributes': len(eqs)},
+            several_lhs = len(re.findall(r'[A-Za-z_][A-Za-z0-9_]*', st.split('=', 1)[0])) >= 2
+            v.append(('statement-dropped' if not eqs else ('statement-doubled:several-lhs-terms' if several_lhs else 'statement-doubled'),
+                      'exactly one equation or verbatim block', {'statement': st, 'contributes': len(eqs)},
                       'a non-blank, non-comment statement does not contribute exactly one equation'))
             break
         alone += eqs
